@@ -194,6 +194,14 @@ pub fn worker_main(args: &[String]) -> i32 {
             write_report(&mut rep, &out, &distinct, tapes.len(), t0);
         }
         let mut case = make_case(p, vseed, i, tier);
+        // self-test of the supervisor (never set by the checks): stall once at a given run index
+        if let Some(at) = std::env::var("SIMCHECK_TEST_STALL_AT").ok().and_then(|s| s.parse::<u64>().ok()) {
+            let marker = std::env::temp_dir().join(format!("simcheck-stalled-{at}"));
+            if at == i && !marker.exists() {
+                let _ = std::fs::write(&marker, b"x");
+                std::thread::sleep(Duration::from_secs(100_000));
+            }
+        }
         let o = p.execute(&case);
         if let Some(w) = &o.work_override {
             case.work = w.clone();
@@ -342,11 +350,26 @@ struct Child {
 fn dies_in_subprocess(exe: &Path, scratch: &Path, case: &Case) -> Option<String> {
     let f = scratch.join("trycase.json");
     std::fs::write(&f, serde_json::to_string(case).unwrap()).ok()?;
-    let o = Command::new(exe).args(["trycase", f.to_str().unwrap()]).stdout(Stdio::null()).stderr(Stdio::piped()).output().ok()?;
-    if o.status.code().is_some() {
+    // (stderr goes to a file: a child that hangs is killed after two minutes, and a pipe nobody drains could block it)
+    let errf = scratch.join("trycase.stderr");
+    let mut child = Command::new(exe).args(["trycase", f.to_str().unwrap()]).stdout(Stdio::null()).stderr(std::fs::File::create(&errf).ok()?).spawn().ok()?;
+    let t0 = Instant::now();
+    let status = loop {
+        match child.try_wait() {
+            Ok(Some(st)) => break st,
+            Ok(None) if t0.elapsed() > Duration::from_secs(120) => {
+                let _ = child.kill();
+                let _ = child.wait();
+                return Some("hang".to_string());
+            }
+            Ok(None) => std::thread::sleep(Duration::from_millis(5)),
+            Err(_) => return None,
+        }
+    };
+    if status.code().is_some() {
         return None;
     }
-    let err = String::from_utf8_lossy(&o.stderr);
+    let err = std::fs::read_to_string(&errf).unwrap_or_default();
     Some(if err.contains("overflowed its stack") { "stack-overflow" } else if err.contains("double free") || err.contains("corrupt") || err.contains("invalid next size") || err.contains("invalid pointer") { "heap-corruption" } else { "abort" }.to_string())
 }
 pub fn trycase_main(args: &[String]) -> i32 {
@@ -433,7 +456,21 @@ pub fn run_main(args: &[String]) -> i32 {
                         let _ = ch.proc.kill();
                         let _ = ch.proc.wait();
                         let ch = children.remove(i);
-                        harness_errors.push(format!("worker {} made no progress for 300 s at index {} (killed)", ch.k, ch.last_cur.trim()));
+                        // what it had finished is in its last checkpoint; the run it was stuck in is handled like a
+                        // crashed one (re-executed alone in a fresh process), and the worker's share goes on after it
+                        if let Some(r) = read_report(&ch.out) {
+                            reports.push(r);
+                        }
+                        match ch.last_cur.trim().parse::<u64>() {
+                            Ok(ix) => {
+                                crashes.push((ix, "worker process made no progress for 300 s and was killed".to_string()));
+                                let next = ix + workers as u64;
+                                if next < runs && ch.gen < 40 && crashes.len() < 200 {
+                                    children.push(spawn(ch.k, ch.gen + 1, next));
+                                }
+                            }
+                            Err(_) => harness_errors.push(format!("worker {} made no progress for 300 s before its first run (killed)", ch.k)),
+                        }
                         continue;
                     }
                 }
@@ -452,6 +489,7 @@ pub fn run_main(args: &[String]) -> i32 {
     let mut known: BTreeMap<String, (u64, String)> = BTreeMap::new();
     let mut crash_sigs: BTreeMap<String, u64> = BTreeMap::new();
     let mut unconfirmed = 0u64;
+    let mut notes = 0u64;
     crashes.sort();
     for (n, (ix, what)) in crashes.iter().enumerate() {
         if n >= 12 && !crash_sigs.is_empty() {
@@ -507,7 +545,11 @@ pub fn run_main(args: &[String]) -> i32 {
         }
     }
     if unconfirmed > 0 {
-        harness_errors.push(format!("{unconfirmed} worker death(s) did not reproduce when the same run was executed alone in a fresh process (memory corruption by the code under test in an earlier run, or a harness problem)"));
+        // The run in question completed normally when executed alone: it is explored, with its verdict. What killed or
+        // stalled the worker is not attributable to it (memory corrupted by the code under test in an earlier run of
+        // that process, or a hiccup of the harness); reported, counted in the evidence, and not a verdict of its own.
+        println!("HARNESS-NOTE: {unconfirmed} worker death(s) / stall(s) did not reproduce when the same run was executed alone in a fresh process; the runs were completed there");
+        notes += unconfirmed as u64;
     }
     // merge
     let mut tot = WorkerReport::default();
@@ -598,12 +640,16 @@ pub fn run_main(args: &[String]) -> i32 {
     for e in &harness_errors {
         println!("HARNESS-ERROR: {e}");
     }
+    let mut counters_out = tot.counters.clone();
+    if notes > 0 {
+        counters_out.insert("harness.unconfirmed_worker_deaths_or_stalls".into(), notes);
+    }
     let summary = json!({
         "property": pid, "flavour": flavour(), "tier": if tier == Tier::Quick {"quick"} else {"thorough"}, "seed": vseed,
         "evaluations": tot.evaluations, "nontrivial_runs": tot.nontrivial, "distinct_nontrivial": distinct.len(),
         "distinct_tapes_sum_over_workers": tot.distinct_tapes,
         "simulated_steps": tot.steps, "context_switches": tot.switches, "max_threads": tot.max_threads,
-        "counters": tot.counters, "policies": tot.policies, "samples": tot.samples,
+        "counters": counters_out, "policies": tot.policies, "samples": tot.samples,
         "known_findings": known.iter().map(|(k, (n, w))| json!({"id": k, "runs": n, "what": w})).collect::<Vec<_>>(),
         "violations": violations.iter().map(|v| json!({"rule": v.rule, "sig": v.sig, "replay": v.replay, "msg": v.msg, "index": v.index})).collect::<Vec<_>>(),
         "harness_errors": harness_errors, "determinism_rechecked": determinism_checked,
